@@ -32,65 +32,62 @@ Qed.
 
 Definition fits (width : nat) (chs : list str) : Prop := Forall (fun c => length c <= width) chs.
 
-(* one round: the words of the line followed by the words left are the words it started from, and it makes progress *)
+(* one round: the words of the line followed by the words left are the words it started from, and it makes progress — whatever
+   the lengths of the chunks (break_long_words=False: a chunk longer than the width is never cut by textwrap) *)
 Lemma wrap_round_spec width first chs line rest :
-  fits width chs -> chs <> [] -> wrap_round width first chs = (line, rest) ->
-  words line ++ words rest = words chs /\ length rest < length chs /\ fits width rest.
+  chs <> [] -> wrap_round width first chs = (line, rest) ->
+  words line ++ words rest = words chs /\ length rest < length chs.
 Proof.
-  intros Hfit Hne H. unfold wrap_round in H.
+  intros Hne H. unfold wrap_round in H.
   set (chs1 := match chs with c :: r => if negb first && all_blank c then r else chs | [] => [] end) in H.
-  assert (H1 : words chs1 = words chs /\ length chs1 <= length chs /\ fits width chs1 /\ (chs1 = chs \/ length chs1 < length chs)).
+  assert (H1 : words chs1 = words chs /\ (chs1 = chs \/ length chs1 < length chs)).
   { unfold chs1. destruct chs as [|c r]; [contradiction|]. destruct (negb first && all_blank c) eqn:E.
     - apply andb_true_iff in E as [_ E]. unfold words at 2. cbn [filter]. rewrite E. cbn [negb].
-      inversion Hfit; subst. split; [reflexivity|]. split; [cbn [length]; lia|]. split; [assumption|]. right; cbn [length]; lia.
-    - split; [reflexivity|]. split; [lia|]. split; [exact Hfit|]. left; reflexivity. }
-  destruct H1 as (Hw1 & Hl1 & Hf1 & Hprog).
+      split; [reflexivity|]. right; cbn [length]; lia.
+    - split; [reflexivity|]. left; reflexivity. }
+  destruct H1 as (Hw1 & Hprog).
   destruct (fill width 0 [] chs1) as [[cur cur_len] rest0] eqn:Ef.
   destruct (fill_spec width chs1 0 [] cur cur_len rest0 Ef) as (Hrev & Hlen & Hstep). cbn [rev app] in Hrev.
-  assert (Hrest0 : fits width rest0).
-  { unfold fits in *. rewrite Forall_forall in *. intros x Hx. apply Hf1. rewrite <- Hrev. apply in_or_app. right. exact Hx. }
-  assert (Hnolong : (let '(cur2, rest2) :=
-                       match rest0 with
-                       | c :: r => if width <? length c
-                                   then let e := long_end c (width - cur_len) in (firstn e c :: cur, skipn e c :: r)
-                                   else (cur, rest0)
-                       | [] => (cur, rest0)
-                       end in (cur2, rest2)) = (cur, rest0)).
-  { destruct rest0 as [|c r]; [reflexivity|]. inversion Hrest0; subst.
-    replace (width <? length c) with false by (symmetry; apply Nat.ltb_ge; assumption). reflexivity. }
+  assert (Hdrop : forall cur2 : list str,
+            words (rev (match cur2 with c :: r => if all_blank c then r else cur2 | [] => [] end)) = words (rev cur2)).
+  { intros cur2. destruct cur2 as [|c r]; [reflexivity|]. destruct (all_blank c) eqn:Eb; [|reflexivity].
+    cbn [rev]. rewrite words_app. unfold words at 3. cbn [filter]. rewrite Eb. cbn [negb]. rewrite app_nil_r. reflexivity. }
+  assert (Hl1 : length chs1 <= length chs) by (destruct Hprog as [->|Hp]; lia).
   destruct rest0 as [|c0 r0].
-  - cbv iota beta in H. inversion H; subst. repeat split; auto.
-    + rewrite app_nil_r in Hrev. rewrite app_nil_r. rewrite <- Hw1, <- Hrev.
-      destruct cur as [|c r]; [reflexivity|]. destruct (all_blank c) eqn:Eb; [|reflexivity].
-      cbn [rev]. rewrite words_app. unfold words at 3. cbn [filter]. rewrite Eb. cbn [negb]. rewrite app_nil_r. reflexivity.
+  - cbv iota beta in H. inversion H; subst. rewrite (Hdrop cur). split.
+    + rewrite app_nil_r in Hrev. rewrite app_nil_r, <- Hw1, <- Hrev. reflexivity.
     + destruct chs; [contradiction|]. cbn [length]. lia.
-  - inversion Hrest0 as [|? ? Hc0 Hr0]; subst.
-    replace (width <? length c0) with false in H by (symmetry; apply Nat.ltb_ge; assumption).
-    inversion H; subst. repeat split; auto.
-    + rewrite <- Hw1, <- Hrev, words_app. f_equal.
-      destruct cur as [|c r]; [reflexivity|]. destruct (all_blank c) eqn:Eb; [|reflexivity].
-      cbn [rev]. rewrite words_app. unfold words at 3. cbn [filter]. rewrite Eb. cbn [negb]. rewrite app_nil_r. reflexivity.
-    + (* progress: the first chunk of chs1 fits an empty line *)
-      destruct chs1 as [|c1 r1] eqn:E1.
-      * cbn [fill] in Ef. inversion Ef.
-      * assert (Hc1 : length c1 <= width) by (inversion Hf1; assumption).
-        specialize (Hstep c1 r1 eq_refl ltac:(lia)). destruct Hprog as [Hp|Hp]; [rewrite <- Hp; exact Hstep|lia].
+  - destruct ((width <? length c0) && match cur with [] => true | _ :: _ => false end) eqn:Elong.
+    + apply andb_true_iff in Elong as [_ Ecur]. destruct cur as [|x cur']; [|discriminate].
+      inversion H; subst. cbn [rev app] in *. split.
+      * rewrite <- Hw1, <- Hrev. change (c0 :: rest) with ([c0] ++ rest). rewrite words_app. f_equal.
+        destruct (all_blank c0) eqn:Eb; cbn [rev app]; unfold words; cbn [filter]; rewrite Eb; reflexivity.
+      * rewrite <- Hrev in Hl1. cbn [length] in Hl1. lia.
+    + inversion H; subst. rewrite (Hdrop cur). split.
+      * rewrite <- Hw1, <- Hrev, words_app. reflexivity.
+      * assert (Hlt : length (c0 :: r0) < length chs1).
+        { destruct cur as [|x cur'].
+          - (* nothing was taken although the first chunk fits an empty line: impossible *)
+            cbn [rev app] in Hrev. apply andb_false_iff in Elong as [E|E]; [|discriminate].
+            apply Nat.ltb_ge in E. apply (Hstep c0 r0); [symmetry; exact Hrev|lia].
+          - rewrite <- Hrev, app_length, rev_length. cbn [length]. lia. }
+        lia.
 Qed.
 
-(* THE WRAP THEOREM: when every chunk fits the width, the lines are made of whole chunks and their words, read line after
-   line, are exactly the words of the text, in order *)
+(* THE WRAP THEOREM: the lines textwrap produces are made of whole chunks and their words, read line after line, are exactly the
+   words of the text, in order — no hypothesis on the lengths *)
 Theorem wrap_keeps_words width : forall fuel first chs,
-  fits width chs -> length chs < fuel ->
+  length chs < fuel ->
   words (concat (wrap_chunks fuel width first chs)) = words chs.
 Proof.
-  induction fuel as [|f IH]; intros first chs Hfit Hfuel; [lia|].
+  induction fuel as [|f IH]; intros first chs Hfuel; [lia|].
   cbn [wrap_chunks]. destruct chs as [|c r] eqn:Ec; [reflexivity|]. rewrite <- Ec in *.
   destruct (wrap_round width first chs) as [line rest] eqn:Er.
   assert (Hne : chs <> []) by (rewrite Ec; discriminate).
-  destruct (wrap_round_spec width first chs line rest Hfit Hne Er) as (Hw & Hl & Hf).
+  destruct (wrap_round_spec width first chs line rest Hne Er) as (Hw & Hl).
   destruct line as [|l0 ls].
-  - rewrite IH by (auto; lia). cbn [words filter app] in Hw. exact Hw.
-  - cbn [concat]. rewrite words_app. rewrite IH by (auto; lia). exact Hw.
+  - rewrite IH by lia. cbn [words filter app] in Hw. exact Hw.
+  - cbn [concat]. rewrite words_app. rewrite IH by lia. exact Hw.
 Qed.
 
 Lemma chunks_from_length : forall l cur b, length (chunks_from l cur b) <= length l + 1.
@@ -102,42 +99,90 @@ Proof.
     + destruct cur; [specialize (IH [c] (is_blank c)); lia|]. cbn [length]. specialize (IH [c] (is_blank c)). lia.
 Qed.
 
-(* the same about textwrap.wrap on strings: the lines are concatenations of whole chunks of the text *)
-Theorem wrap_whole_words width (text : str) :
-  fits width (chunks_of text) ->
-  exists ls : list (list str), wrap width text = map (@concat ascii) ls /\ words (concat ls) = words (chunks_of text).
+(* ---- the cut of over-long lines ---- *)
+Lemma rfind_cut_spec : forall l pos limit best h,
+  rfind_cut l pos limit best = Some h ->
+  (best = Some h) \/ (pos <= h /\ exists c, nth_error l (h - pos) = Some c /\ is_cut_char c = true).
 Proof.
-  intros Hfit. exists (wrap_chunks (2 * length text + 2) width true (chunks_of text)). split; [reflexivity|].
-  apply wrap_keeps_words; [exact Hfit|]. unfold chunks_of. pose proof (chunks_from_length text [] false). lia.
+  induction l as [|c r IH]; intros pos limit best h H; cbn [rfind_cut] in H; [left; exact H|].
+  destruct (pos <? limit); [|left; exact H].
+  destruct (IH _ _ _ _ H) as [Hb|(Hle & c' & Hn & Hc)].
+  - destruct (is_cut_char c) eqn:Ec; [|left; exact Hb].
+    inversion Hb; subst. right. split; [lia|]. exists c. rewrite Nat.sub_diag. split; [reflexivity|exact Ec].
+  - right. split; [lia|]. exists c'. split; [|exact Hc].
+    replace (h - pos) with (S (h - S pos)) by lia. exact Hn.
 Qed.
 
-(* the hypothesis is met by a statement of ordinary shape, and the lines are what textwrap.wrap returns *)
+(* every piece but the last ends with `(`, `)` or `,`, and the pieces put together are the line *)
+Definition ends_at_cut (piece : str) : Prop := exists c, last piece c = c /\ piece <> [] /\ is_cut_char (last piece " "%char) = true.
+
+Lemma split_long_nonempty fuel width line : split_long fuel width line <> [].
+Proof.
+  destruct fuel; cbn [split_long]; [discriminate|].
+  destruct (width <? length line); [|discriminate]. destruct (rfind_cut line 0 width None); discriminate.
+Qed.
+
+Lemma split_long_spec : forall fuel width line,
+  concat (split_long fuel width line) = line /\
+  Forall (fun piece => is_cut_char (last piece " "%char) = true) (removelast (split_long fuel width line)).
+Proof.
+  induction fuel as [|f IH]; intros width line; cbn [split_long].
+  - cbn [concat removelast]. rewrite app_nil_r. split; [reflexivity|constructor].
+  - destruct (width <? length line); [|cbn [concat removelast]; rewrite app_nil_r; split; [reflexivity|constructor]].
+    destruct (rfind_cut line 0 width None) as [h|] eqn:E; [|cbn [concat removelast]; rewrite app_nil_r; split; [reflexivity|constructor]].
+    destruct (IH width (skipn (S h) line)) as [Hc Hf]. split.
+    + cbn [concat]. rewrite Hc. apply firstn_skipn.
+    + destruct (rfind_cut_spec _ _ _ _ _ E) as [Hb|(_ & c & Hn & Hcc)]; [discriminate|]. rewrite Nat.sub_0_r in Hn.
+      assert (Hlast : last (firstn (S h) line) " "%char = c).
+      { clear - Hn. revert h Hn. induction line as [|x l IHl]; intros h Hn; [destruct h; discriminate|].
+        destruct h as [|h]; cbn [nth_error] in Hn.
+        - inversion Hn; subst. reflexivity.
+        - destruct l as [|y l']; [destruct h; discriminate Hn|]. specialize (IHl h Hn).
+          cbn [firstn] in IHl |- *. cbn [last] in IHl |- *. exact IHl. }
+      destruct (split_long f width (skipn (S h) line)) as [|p ps] eqn:Es.
+      * exfalso. revert Es. apply split_long_nonempty.
+      * cbn [removelast]. constructor; [rewrite Hlast; exact Hcc|exact Hf].
+Qed.
+
+(* _wrap_code: the lines are the lines of textwrap.wrap (whole chunks, words in order), each possibly cut further after a
+   parenthesis or comma: every line break of the generated module lies between two tokens *)
+Theorem wrap_breaks_between_tokens width (text : str) :
+  exists ls : list (list str),
+    wrap width text = flat_map (fun line => split_long (length line) width line) (map (@concat ascii) ls) /\
+    words (concat ls) = words (chunks_of text) /\
+    forall line, concat (split_long (length line) width line) = line /\
+                 Forall (fun piece => is_cut_char (last piece " "%char) = true) (removelast (split_long (length line) width line)).
+Proof.
+  exists (wrap_chunks (2 * length text + 2) width true (chunks_of text)). split; [reflexivity|]. split.
+  - apply wrap_keeps_words. unfold chunks_of. pose proof (chunks_from_length text [] false). lia.
+  - intros line. apply split_long_spec.
+Qed.
+
+(* a statement of ordinary shape: the lines are what _wrap_code returns *)
 Example wrap_example :
   let code := lit "solved_values(1, index) = solved_values(2, index) + solved_values(3, index-1) * solved_values(4, index) - solved_values(5, index+1) / solved_values(6, index)" in
-  fits 100 (chunks_of code) /\
   wrap 100 code = [lit "solved_values(1, index) = solved_values(2, index) + solved_values(3, index-1) * solved_values(4,";
                    lit "index) - solved_values(5, index+1) / solved_values(6, index)"].
-Proof.
-  cbv zeta. split; [|vm_compute; reflexivity].
-  unfold fits. apply Forall_forall. intros c Hc. vm_compute in Hc.
-  repeat (destruct Hc as [<-|Hc]; [vm_compute; repeat constructor|]). destruct Hc.
-Qed.
+Proof. vm_compute. reflexivity. Qed.
 
-(* KEPT FINDING, now derived from the model of wrap: a blank-free run of more than `width` characters is cut inside a token,
-   and the resulting block is no statement of the Fortran grammar although the unwrapped code is *)
-Example wrap_splits_long_word :
+(* REPAIRED (fix 45adc65; before it the block below was no statement of the grammar: `abs` was cut in two): a blank-free run of
+   120 characters — 26 nested calls — is cut after a parenthesis, and the block written for it parses to the very tree of the code *)
+Example wrap_long_run_parses :
   let names := [lit "Y"; lit "X"] in
   let eq := lit "Y[t] = abs(abs(abs(abs(abs(abs(abs(abs(abs(abs(abs(abs(abs(abs(abs(abs(abs(abs(abs(abs(abs(abs(abs(abs(abs(abs(X[t]))))))))))))))))))))))))))" in
-  exists code blk,
+  exists code blk t,
     rewrite names eq = Some code /\ equation_block names 100 eq = Some blk /\
-    (exists t, parse_stmt code = Some (0, t)) /\          (* the code itself is a statement of the grammar ...            *)
-    parse_stmt (stmt_of_block blk) = None /\               (* ... the block written for it is not: `abs` is cut in two       *)
-    ~ fits 100 (chunks_of code).                            (* and indeed a chunk of the code exceeds the width              *)
+    ~ fits 100 (chunks_of code) /\
+    parse_stmt code = Some (0, t) /\ parse_stmt (stmt_of_block blk) = Some (0, t) /\
+    Forall (fun l => length l <= 100) (wrap 100 code).
 Proof.
-  cbv zeta. eexists. eexists. split; [vm_compute; reflexivity|]. split; [vm_compute; reflexivity|].
-  split; [eexists; vm_compute; reflexivity|]. split; [vm_compute; reflexivity|].
-  intros Hfit. unfold fits in Hfit. rewrite Forall_forall in Hfit.
-  match type of Hfit with forall x, In x ?l -> _ => let l' := eval vm_compute in l in change l with l' in Hfit end.
-  specialize (Hfit _ (or_intror (or_intror (or_intror (or_intror (or_intror (or_intror (or_introl eq_refl)))))))).
-  vm_compute in Hfit. repeat (apply le_S_n in Hfit). inversion Hfit.
+  cbv zeta. eexists. eexists. eexists. split; [vm_compute; reflexivity|]. split; [vm_compute; reflexivity|].
+  split.
+  { intros Hfit. unfold fits in Hfit. rewrite Forall_forall in Hfit.
+    match type of Hfit with forall x, In x ?l -> _ => let l' := eval vm_compute in l in change l with l' in Hfit end.
+    specialize (Hfit _ (or_intror (or_intror (or_intror (or_intror (or_intror (or_intror (or_introl eq_refl)))))))).
+    vm_compute in Hfit. repeat (apply le_S_n in Hfit). inversion Hfit. }
+  split; [vm_compute; reflexivity|]. split; [vm_compute; reflexivity|].
+  apply Forall_forall. intros l Hl. vm_compute in Hl.
+  repeat (destruct Hl as [<-|Hl]; [vm_compute; repeat constructor|]). destruct Hl.
 Qed.
